@@ -73,6 +73,7 @@ func runC03(c *Ctx) {
 	// evaluating the selection must not change the document it selects from
 	ruleX1(c, "D2")
 	ruleK(c, "K1", "K2", "")
+	ruleK1w(c, "K4", 12)
 	dropEmptyRule(r)
 }
 
@@ -140,4 +141,5 @@ func runC16(c *Ctx) {
 	r.Rule("K2", "re-keying on AddKeyValueChild / CopyAsReplacement; copies share nothing but Parent/Alias", 5)
 	r.Rule("K3", "key / path / parent read only the recorded position attributes", 3)
 	ruleK(c, "K1", "K2", "K3")
+	ruleK1w(c, "K4", 12)
 }
